@@ -19,6 +19,15 @@ the check) + the observers (description, raw cached signatures, is_valid()).  Da
 serialize::lambda::load (stream constructors): the only documented outcomes are a model, nullptr and
 exception::data_format; a loaded model is saved again and compared with the Lean model's load-then-save.  The
 success/failure verdict and, on success, the loaded object are compared with the model's.
+
+(c) "A load of a damaged stream reports failure": whether a damaged stream is still a serialization is decided by the
+    byte-level model of the extractors (Vita/C11/Text.lean; theorems of Props.lean (c): which spellings every numeric
+    extraction rejects, a failed element fails the counted loop, the load then reports failure).  Model `fail` and real
+    load `true` = VIOLATION "load succeeded on a stream the format rejects" with the stream as replay, for every type -
+    unless the object loaded is what the tokens of the stream say under the most liberal numeric reading (then vita
+    reads a spelling the model does not: tie broken, no failing input).  Every int / float field gets the damaged
+    spellings nonnumeric / partial (`12x`) / empty / sign only / hex / inf-nan / overlong; a family never tried on a
+    field type of a target type is a failure of the check.
 """
 import concurrent.futures as cf
 import json
@@ -43,19 +52,19 @@ SOURCE_TYPE = {"cachet": "cache"}
 WEAK_MAY_CHANGE = {"cachet": "vita::cache::table_"}
 # objects per type, max stream length for exhaustive prefixes, token mutations per object: (quick, thorough)
 BUDGET = {
-    "hash": ((100, 600, 120), (570, 6000, 600)),
-    "fit": ((200, 600, 120), (1150, 6000, 600)),
-    "iga": ((150, 600, 120), (860, 6000, 600)),
-    "ide": ((150, 600, 120), (860, 6000, 600)),
-    "mati": ((100, 600, 120), (570, 6000, 600)),
-    "matu": ((100, 600, 120), (570, 6000, 600)),
-    "dist": ((100, 600, 160), (570, 6000, 600)),
-    "imep": ((150, 600, 160), (860, 6000, 600)),
-    "team": ((40, 600, 160), (210, 6000, 600)),
-    "pop": ((40, 600, 200), (210, 6000, 700)),
-    "summ": ((80, 600, 160), (430, 6000, 600)),
-    "lam": ((60, 600, 200), (340, 6000, 700)),
-    "cachet": ((60, 400, 120), (340, 4000, 600)),
+    "hash": ((80, 600, 120), (570, 6000, 400)),
+    "fit": ((160, 600, 120), (1150, 6000, 400)),
+    "iga": ((120, 600, 120), (860, 6000, 400)),
+    "ide": ((120, 600, 120), (860, 6000, 400)),
+    "mati": ((80, 600, 120), (570, 6000, 400)),
+    "matu": ((80, 600, 120), (570, 6000, 400)),
+    "dist": ((80, 600, 160), (570, 6000, 400)),
+    "imep": ((120, 600, 160), (860, 6000, 400)),
+    "team": ((40, 600, 160), (210, 6000, 400)),
+    "pop": ((40, 600, 200), (210, 6000, 470)),
+    "summ": ((80, 600, 160), (430, 6000, 400)),
+    "lam": ((60, 600, 200), (340, 6000, 470)),
+    "cachet": ((60, 400, 120), (340, 4000, 400)),
 }
 FAILISH = ("fail", "exc:bad_alloc", "exc:length_error", "null", "exc:data_format")
 
@@ -245,8 +254,57 @@ def opcode_substitutes(op, symtab, cats):
     return sorted(out.items())
 
 
-def token_damage(rng, data, toks, ti, donor):
-    """[(kind, bytes)]: every single-token damage of token `ti`"""
+INT_RE = re.compile(rb"^[+-]?\d+$")
+FLOAT_RE = re.compile(rb"^[+-]?(\d+\.?\d*|\.\d+)([eE][+-]?\d+)?$|^[+-]?(inf|nan)$")
+
+
+def shape_of(tok):
+    """the field type a token of a VALID serialization stands for, by its spelling: `int` (every integer field),
+    `float` (what save_float_to_stream writes: scientific, or inf / nan), `word` (names, kind ids)"""
+    return "int" if INT_RE.match(tok) else "float" if FLOAT_RE.match(tok) else "word"
+
+
+# the spellings a damaged NUMERIC field can take (beside the ones of `token_damage`): family -> variants
+FORMAT_FAMILIES = ("nonnumeric", "partial", "signonly", "hex", "infnan", "overlong")
+
+
+def format_damage(rng, tok, shape):
+    """[(family:variant, token)]: what a damaged token of a numeric field can look like.  Whether the stream is
+    still a serialization is decided by the byte-level model of the extractors, not here: some of these are
+    other spellings of a number (leading zeros, a long mantissa, an exponent that underflows)."""
+    sg = tok[:1] if tok[:1] in (b"-", b"+") else b""
+    body = tok[len(sg):]
+    dig = bytes(c for c in body if 48 <= c <= 57) or b"7"
+    mid = max(1, len(tok) // 2)
+    out = [("nonnumeric:word", b"abc"), ("nonnumeric:punct", b"#"), ("nonnumeric:comma", b","),
+           ("partial:tail", tok + b"x"), ("partial:mid", tok[:mid] + b"x" + tok[mid:]),
+           ("partial:head", b"x" + tok), ("partial:dots", sg + dig[:1] + b"." + dig[1:2] + b"." + dig[2:3]),
+           ("partial:comma", tok[:mid] + b"," + tok[mid:]),
+           ("signonly:minus", b"-"), ("signonly:plus", b"+"), ("signonly:double", b"--" + body),
+           ("signonly:dot", b"."), ("signonly:e", b"e5"),
+           ("hex:int", sg + b"0x" + (b"%x" % int(dig[:15]))), ("hex:float", sg + b"0x1.8p3"), ("hex:digits", b"1a"),
+           ("infnan:inf", b"inf"), ("infnan:-inf", b"-inf"), ("infnan:nan", b"nan"), ("infnan:infinity", b"Infinity"),
+           ("infnan:NAN", b"NAN"), ("infnan:nan()", b"nan(1)"),
+           ("overlong:digits", sg + dig + bytes(48 + rng.below(10) for _ in range(25))),
+           ("overlong:zeros", sg + b"0" * 40 + body),
+           ("overlong:huge", sg + dig[:1] + bytes(48 + rng.below(10) for _ in range(700)))]
+    if shape == "float":
+        m = re.match(rb"^([+-]?[\d.]*)[eE]([+-]?)(\d+)$", tok)
+        mant = m.group(1) if m else tok
+        out += [("partial:exp", mant + b"e"), ("partial:expsign", mant + b"e+"), ("partial:exp2", tok + b"e1"),
+                ("overlong:mantissa", mant + bytes(48 + rng.below(10) for _ in range(400)) +
+                 (b"e" + m.group(2) + m.group(3) if m else b"")),
+                ("overlong:exponent", mant + b"e+99999"), ("overlong:underflow", mant + b"e-99999"),
+                ("overlong:expdigits", mant + b"e+" + b"0" * 30 + b"1")]
+    else:
+        out += [("partial:fraction", tok + b".5"), ("partial:exp", tok + b"e2"),
+                ("overlong:max", sg + b"18446744073709551616"), ("overlong:i32", sg + b"2147483649")]
+    return [(k, t) for k, t in out if t != tok]
+
+
+def token_damage(rng, data, toks, ti, donor, n_format=None):
+    """[(kind, bytes)]: every single-token damage of token `ti` (`n_format`: that many variants of each
+    FORMAT family, None = all)"""
     out = []
     a, b = toks[ti]
     tok = data[a:b]
@@ -256,6 +314,16 @@ def token_damage(rng, data, toks, ti, donor):
             out.append((kind, data[:a] + new + data[b:]))
     out.append(("delete", data[:a] + data[b:]))
     put("word", b"x")
+    fam = {}
+    for k, t in format_damage(rng, tok, shape_of(tok)):
+        fam.setdefault(k.split(":")[0], []).append((k, t))
+    for f in FORMAT_FAMILIES:
+        v = fam.get(f, [])
+        if n_format is not None and len(v) > n_format:
+            k0 = rng.below(len(v))
+            v = [v[(k0 + j) % len(v)] for j in range(n_format)]
+        for k, t in v:
+            put(k, t)
     t2 = bytearray(tok)
     dig = [i for i, c in enumerate(t2) if 48 <= c <= 57]
     if dig:
@@ -283,7 +351,7 @@ def token_damage(rng, data, toks, ti, donor):
 
 
 def mutations(rng, data, max_exh, n_tok, typ="", symtab=None, cats=None, donor=None):
-    """[(kind, bytes, role)] for one valid serialization."""
+    """[(kind, bytes, role, shape of the damaged token)] for one valid serialization."""
     out = []
     L = len(data)
     if L <= max_exh:
@@ -291,7 +359,7 @@ def mutations(rng, data, max_exh, n_tok, typ="", symtab=None, cats=None, donor=N
     else:
         offs = sorted({rng.below(L) for _ in range(max_exh)} | {0, 1, L - 1, L - 2})
     for k in offs:
-        out.append(("prefix", data[:k], "-"))
+        out.append(("prefix", data[:k], "-", "-"))
     toks = tokens_of(data)
     if not toks:
         return out
@@ -307,8 +375,11 @@ def mutations(rng, data, max_exh, n_tok, typ="", symtab=None, cats=None, donor=N
         rnd = [rng.below(len(toks)) for _ in range(n_tok // per)]
         picks = sorted(set(top + nested + rnd))
     for ti in picks:
-        for kind, bts in token_damage(rng, data, toks, ti, donor):
-            out.append((kind, bts, roles[ti]))
+        # one variant of each format family per token, every variant on one token in eight
+        nf = None if rng.below(8) == 0 else 1
+        shape = shape_of(data[toks[ti][0]:toks[ti][1]])
+        for kind, bts in token_damage(rng, data, toks, ti, donor, nf):
+            out.append((kind, bts, roles[ti], shape))
     ops = [i for i, r in enumerate(roles) if r == "opcode"]
     if ops and symtab:
         for ti in sorted({ops[rng.below(len(ops))] for _ in range(max(1, n_tok // 40))}):
@@ -318,8 +389,50 @@ def mutations(rng, data, max_exh, n_tok, typ="", symtab=None, cats=None, donor=N
             except ValueError:
                 continue
             for kind, o in opcode_substitutes(op, symtab, cats):
-                out.append((kind, data[:a] + str(o).encode() + data[b:], "opcode"))
+                out.append((kind, data[:a] + str(o).encode() + data[b:], "opcode", "int"))
     return out
+
+
+FAMILY_OF = {"word": "nonnumeric", "nonnumeric": "nonnumeric", "partial": "partial", "delete": "empty",
+             "signonly": "signonly", "hex": "hex", "infnan": "infnan", "overlong": "overlong"}
+
+C_NUMERAL = re.compile(r"^[+-]?((\d+\.?\d*|\.\d+)([eE][+-]?\d+)?|0[xX]([0-9a-fA-F]+\.?[0-9a-fA-F]*|\.[0-9a-fA-F]+)"
+                       r"([pP][+-]?\d+)?|inf(inity)?|nan(\([0-9A-Za-z_]*\))?)$", re.I)
+
+
+def c_value(tok):
+    """the number a whole token denotes for C's strtod (the most liberal reading); None if it is not a numeral"""
+    t = tok.decode("latin1")
+    if not C_NUMERAL.match(t):
+        return None
+    try:
+        if re.match(r"^[+-]?0[xX]", t):
+            return float.fromhex(t)
+        return float(re.sub(r"\(.*\)$", "", t))
+    except (ValueError, OverflowError):
+        return float("-inf") if t.startswith("-") else float("inf")
+
+
+def unexplained(stream, resaved):
+    """None when the object the real load committed (`resaved` = its serialization) is what the tokens of `stream`
+    say: token by token the same bytes, or two numerals (C strtod, whole token) of the same value.  Otherwise the
+    first token for which that fails."""
+    a = [stream[x:y] for x, y in tokens_of(stream)]
+    b = [resaved[x:y] for x, y in tokens_of(resaved)]
+    for i, tb in enumerate(b):
+        if i >= len(a):
+            return f"the stream ends after {len(a)} tokens, the loaded object has {len(b)}"
+        ta = a[i]
+        if ta == tb:
+            continue
+        va, vb = c_value(ta), c_value(tb)
+        if va is None or vb is None:
+            return f"token {i} of the stream is `{ta[:40].decode('latin1')}`, not a number; the object loaded holds " \
+                   f"`{tb[:40].decode('latin1')}` there"
+        if not (va == vb or (va != va and vb != vb)):
+            return f"token {i} of the stream is `{ta[:40].decode('latin1')}`; the object loaded holds " \
+                   f"`{tb[:40].decode('latin1')}` there"
+    return None
 
 
 def hexs(b):
@@ -450,15 +563,21 @@ def run(chk, replay=None):
             data = bytes.fromhex(o["hex"])
             chk.count("source_objects:" + typ)
             symtab = parse_symtab(o.get("ctx", "")) if typ in K11.NEEDS_CTX else None
+            for sh in {shape_of(data[a:b]) for a, b in tokens_of(data)}:
+                shapes_present.add((typ, sh))
             # models: no target, the second field selects the problem (symbol set) of the model; otherwise the seed
             # of the target's history: a few targets per source object (the harness keeps the last ones built)
             tbase = rng.next() % 1000003
             tsf = (lambda: o["tags"].get("prob", 0)) if typ == "lam" else (lambda: tbase + rng.below(6))
             reqs.append((typ, "intact", tsf(), o["hex"], i, o.get("ctx", "")))
-            for kind, b, role in mutations(rng, data, max_exh, n_tok, typ, symtab, state.get("cats"), state.get("donor")):
+            for kind, b, role, shape in mutations(rng, data, max_exh, n_tok, typ, symtab, state.get("cats"),
+                                                  state.get("donor")):
                 reqs.append((typ, kind, tsf(), hexs(b), i, o.get("ctx", "")))
                 if role not in ("-", "?"):
-                    chk.count(f"role:{role}:{kind}")
+                    chk.count(f"role:{role}:{kind.split(':')[0] if kind.split(':')[0] in FORMAT_FAMILIES else kind}")
+                fam = FAMILY_OF.get(kind.split(":")[0])
+                if fam:
+                    field_cover[(typ, shape, fam)] = field_cover.get((typ, shape, fam), 0) + 1
             state["donor"] = [data[a:b] for a, b in tokens_of(data)][:400] or state.get("donor")
             if len(reqs) >= CHUNK:
                 yield reqs
@@ -467,6 +586,11 @@ def run(chk, replay=None):
             yield reqs
 
     tabs = {}
+    shapes_present = set()  # (type, shape): the field types that occur in the valid streams of the run
+    field_cover = {}       # (type, shape of the valid token, damage family) -> damaged streams generated
+    acc_n = {}
+    accepted = []          # (request, line, code answer): the code loaded a stream the model of the format rejects
+    dis = {}               # (type, class) -> number of model/code disagreements
 
     def ctx_of(req):
         t, _, ts, _, _, c = req
@@ -494,14 +618,19 @@ def run(chk, replay=None):
                    f"load {SOURCE_TYPE.get(r[0], r[0])} {r[3]} {ctx_of(r)}") for r in reqs]
 
         def cpp(idx):
+            t0 = time.time()
             a, deaths = C.run_lines(exe, lines[idx::shards] + ["stats"], timeout=3000)
+            phase["cpu:harness-shards"] = round(phase.get("cpu:harness-shards", 0) + time.time() - t0, 1)
             n = len(lines[idx::shards])
             st = a[n] if len(a) > n and a[n].startswith("stats ") else None
             # a death reported on the trailing `stats` line (e.g. a leak report at exit) belongs to the run
             return a[:n], [(min(j, n - 1), rcode, se) for j, rcode, se in deaths], st
 
         def model(idx):
-            return C.run_driver("c12_driver", mlines[idx::shards]) if drv_ok else None
+            t0 = time.time()
+            r = C.run_driver("c12_driver", mlines[idx::shards]) if drv_ok else None
+            phase["cpu:driver-shards"] = round(phase.get("cpu:driver-shards", 0) + time.time() - t0, 1)
+            return r
 
         with cf.ThreadPoolExecutor(2 * shards) as ex:
             fc = [ex.submit(cpp, i) for i in range(shards)]
@@ -585,19 +714,37 @@ def run(chk, replay=None):
                 # a damaged element count made the real code ask for more memory than the harness grants
                 # (64 MiB): a resource outcome the model has no notion of; only the own oracle applies
                 ma = None
-            if ma is not None:
+            if ma is not None and (ma == "fail" or ma.startswith("ok ")):
                 m_ok = ma.startswith("ok ")
                 c_ok = verdict == "ok"
-                agree = (m_ok == c_ok)
-                if agree and m_ok and typ not in WEAK_MAY_CHANGE:
+                cls = None
+                if c_ok and not m_ok:
+                    # the property's other half: a damaged stream must be REPORTED.  The byte-level model of the
+                    # extractors (written from the format, not from vita's load functions) rejects this stream and
+                    # the real load returned true / a model: decided below (`explained`)
+                    cls = "accepted-a-stream-the-format-rejects"
+                    chk.count(f"accepted:{typ}:{kind.split(':')[0]}")
+                    akey = (typ, kind.split(":")[0])        # a sample per type and kind of damage goes to `explained`
+                    acc_n[akey] = acc_n.get(akey, 0) + 1
+                    if acc_n[akey] <= 25:
+                        accepted.append((reqs[g], lines[g], ca))
+                elif m_ok and not c_ok:
+                    cls = "rejected-a-stream-the-model-accepts"
+                elif m_ok and typ not in WEAK_MAY_CHANGE and ma[3:].split(" | ")[0].strip() != after.strip():
                     # plain types: the loaded object; models: the bytes of the reloaded model saved again
-                    agree = ma[3:].split(" | ")[0].strip() == after.strip()
-                if not agree:
+                    cls = "loaded-another-object"
+                if cls:
                     state["ndis"] += 1
                     chk.count("disagree:" + typ)
-                    if state["ndis"] <= 6:
-                        broken.append(f"model and code disagree on `{lines[g][:300]}` ({kind}): code `{ca[:200]}`, "
-                                      f"model `{ma[:200]}`")
+                    dis[(typ, cls)] = dis.get((typ, cls), 0) + 1
+                    if cls != "accepted-a-stream-the-format-rejects" and dis[(typ, cls)] <= 2:
+                        broken.append(f"model and code disagree ({typ}: {cls}) on `{lines[g][:300]}` ({kind}): "
+                                      f"code `{ca[:200]}`, model `{ma[:200]}`")
+            elif ma is not None:
+                state["ndis"] += 1
+                dis[(typ, "no-model-answer")] = dis.get((typ, "no-model-answer"), 0) + 1
+                if dis[(typ, "no-model-answer")] <= 1:
+                    broken.append(f"the model gives no verdict on `{lines[g][:300]}` ({kind}): `{ma[:100]}`")
             if g % 5003 == 0:
                 chk.sample({"request": lines[g][:160], "mutation": kind, "code": ca[:120], "model": (ma or "")[:120]}, limit=10)
 
@@ -607,6 +754,59 @@ def run(chk, replay=None):
                 process(chunk)
         else:
             process(bt)
+    # ---- a load that succeeded on a stream the format rejects ----------------------------------------------
+    # Is the loaded object at least what the tokens of the stream SAY, read as numbers in the most liberal way (C
+    # strtod on the whole token: inf / nan / hex / any exponent)?  Then vita reads a spelling the modelled
+    # extractors do not (an extension of the format, or the model of the extractors is out of date): the tie is
+    # broken, no input violates the property.  Otherwise a damaged field was passed over and the load reported
+    # success with something else in its place: the property fails on this stream.
+    if accepted and drv_ok:
+        sv = C.run_driver("c12_driver", [f"save {SOURCE_TYPE.get(r[0], r[0])} {' '.join(ca.split()[2:])}"
+                                         if r[0] != "lam" else "fmt 0" for r, _, ca in accepted])
+        nrep = {}
+        for (req, line, ca), saved in zip(accepted, sv):
+            typ, kind, ts, hx, _src, _c = req
+            loaded = " ".join(ca.split()[2:])
+            resaved = loaded if typ == "lam" else saved
+            try:
+                why = unexplained(bytes.fromhex(hx) if hx != "-" else b"", bytes.fromhex(resaved) if resaved != "-" else b"")
+            except ValueError:
+                why = f"the loaded object cannot be saved by the model (`{resaved[:60]}`)"
+            chk.count(f"accepted:{typ}:" + ("damaged-field-passed-over" if why else "another-spelling"))
+            if why:
+                rkey = (typ, kind == "corpus")          # the regression inputs and what the search itself found
+                nrep[rkey] = nrep.get(rkey, 0) + 1
+                if nrep[rkey] <= 2:
+                    chk.violation(
+                        f"{typ}::load succeeded on a stream the format rejects ({kind}): the byte-level model of the "
+                        f"extractors fails on it, the real load returned {'a model' if typ == 'lam' else 'true'} and "
+                        f"committed an object that is not what the stream says ({why}); "
+                        f"{dis.get((typ, 'accepted-a-stream-the-format-rejects'), 0)} such streams for this type; "
+                        f"loaded = {loaded[:300]}",
+                        {"line": line, "mutation": kind, "bytes": bytes.fromhex(hx).decode("latin1")[:600] if hx != "-" else "",
+                         "cpp": ca[:600], "model": "fail", "resaved": bytes.fromhex(resaved).decode("latin1")[:600]
+                         if why and not why.startswith("the loaded") and resaved != "-" else ""},
+                        tags={"type": typ, "mutation": kind, "outcome": "accepted"})
+            elif not any(b.startswith(f"the real {typ}::load accepts") for b in broken):
+                broken.append(f"the real {typ}::load accepts a spelling the model of the extractors rejects, and loads "
+                              f"the value the token denotes: `{line[:300]}` ({kind}): code `{ca[:200]}`, model `fail` "
+                              f"(format extended, or Vita/C11/Text.lean out of date)")
+    elif accepted:
+        broken.append("the real load accepted streams and the model gives no verdict (driver does not build)")
+    chk.cov["accepted_rejected_streams"] = {f"{t}:{c}": n for (t, c), n in sorted(dis.items())}
+    # every field type x every family of damaged spellings must have been tried on every type that has such fields
+    if not replay:
+        for typ in TYPES:
+            shapes = {sh for (t, sh) in shapes_present if t == typ and sh in ("int", "float")}
+            for sh in sorted(shapes):
+                for fam in sorted(set(FAMILY_OF.values())):
+                    n = field_cover.get((typ, sh, fam), 0)
+                    chk.count(f"field:{typ}:{sh}:{fam}", n)
+                    if not n:
+                        broken.append(f"blind spot of the damage model: no `{fam}` spelling was tried on a {sh} field "
+                                      f"of a `{typ}` stream in this run")
+            if not shapes:
+                broken.append(f"blind spot of the damage model: no numeric field of a `{typ}` stream was damaged")
     # ---- the snapshot must have covered, and some target populated, EVERY data member -----------------
     if table is not None and not replay:
         cover = {}
@@ -651,6 +851,8 @@ def run(chk, replay=None):
              "tier's length bound, sampled beyond), and per token (all tokens of short records, a sample otherwise, "
              "structural tokens always): deletion, non-numeric word, same-digit-count digits, all zeros, all nines, "
              "sign flip, '+' prefix, swap with the next token, donor token of the same record / of another object, "
+             "for every int / float field one variant (one token in eight: all) of each damaged-spelling family: "
+             "nonnumeric, partially numeric, sign only, hex, inf/nan words, overlong; "
              "and for program streams the opcode of another valid symbol (other arity / parametric / category, same "
              "shape, unknown); each on a target built by a populating history (a few targets per source object); "
              "distinct = distinct (type, bytes)",
@@ -658,6 +860,6 @@ def run(chk, replay=None):
                  "JSON AST -> data-flow Stmt syntax; classification rules listed in its header",
                  "abstract data-flow semantics Vita/C12/Flow.lean (Exec)",
                  "tools/c12_members.py (clang-14 JSON AST -> member table) + value rules of harness/c12_snap.h",
-                 "hand-written loadInto models (Vita/C12/Model.lean) over the C11 text layer, validated by the "
-                 "differential run", "harness/c12_load.cc snapshots (raw cached signature via explicit-instantiation "
+                 "hand-written loadInto models (Vita/C12/Model.lean) over the C11 text layer (byte-level model of "
+                 "libstdc++'s extractors = the format oracle of part (c)), validated by the differential run", "harness/c12_load.cc snapshots (raw cached signature via explicit-instantiation "
                  "access), g++ 12 ASan/UBSan"])
